@@ -7,6 +7,13 @@ from . import simdrv
 from .simdrv import A, F, B, C, D, E, H, L, IXh, IYh, SP, I, R, PC, T, IFF, IM, HALT, MEMPTR
 
 FIRST48, T1_48, FRAME48 = 14335, 57245, 69888
+# machine layouts: first contended T, first T after the contended part, T per line, frame, INT length
+L48 = dict(first=14335, t1=57245, line=224, frame=69888, ia=32, m128=0, odd=0, page=0, rom=0)
+L128_ODD = dict(first=14361, t1=58035, line=228, frame=70908, ia=36, m128=1, odd=1, page=1, rom=0)
+L128_ODD3 = dict(first=14361, t1=58035, line=228, frame=70908, ia=36, m128=1, odd=1, page=3, rom=1)
+L128_EVEN = dict(first=14361, t1=58035, line=228, frame=70908, ia=36, m128=1, odd=0, page=4, rom=1)
+L128_EVEN0 = dict(first=14361, t1=58035, line=228, frame=70908, ia=36, m128=1, odd=0, page=0, rom=0)
+LAYOUTS128 = (L128_ODD, L128_EVEN, L128_ODD3, L128_EVEN0)
 
 
 def place(rnd):
@@ -15,6 +22,18 @@ def place(rnd):
         return rnd.choice((0x4000, 0x4001, 0x5AFF, 0x7FFE, 0x7FFF, rnd.randrange(0x4000, 0x8000)))
     if k < 0.85:
         return rnd.choice((0x8000, 0x8001, 0xBFFF, 0xC000, 0xFFFF, rnd.randrange(0x8000, 0x10000)))
+    return rnd.choice((0x0000, 0x3FFF, 0x3FFE, rnd.randrange(0x4000)))
+
+
+def place128(rnd):
+    """128K: the bank at 0xC000 matters (contended when odd), so put more there."""
+    k = rnd.random()
+    if k < 0.35:
+        return rnd.choice((0x4000, 0x4001, 0x5AFF, 0x7FFE, 0x7FFF, rnd.randrange(0x4000, 0x8000)))
+    if k < 0.7:
+        return rnd.choice((0xC000, 0xC001, 0xFFFE, 0xFFFF, 0xBFFF, 0xBFFE, rnd.randrange(0xC000, 0x10000)))
+    if k < 0.85:
+        return rnd.choice((0x8000, 0x8001, rnd.randrange(0x8000, 0xC000)))
     return rnd.choice((0x0000, 0x3FFF, 0x3FFE, rnd.randrange(0x4000)))
 
 
@@ -40,11 +59,23 @@ def cplace(rnd):
     return rnd.choice((0x4000, 0x5ABC, 0x7FFC, rnd.randrange(0x4000, 0x7FF0)))
 
 
-def make_case(slot, rnd, variant, boundary=None):
+def boundary_t(lay):
+    f, t1 = lay['first'], lay['t1']
+    return (f - 24, f - 23, f - 22, f - 21, t1 - 2, t1 - 1, t1, t1 + 1)
+
+
+def cplace128odd(rnd):
+    return rnd.choice((0x4000, 0x7FFC, 0xC000, 0xFFFC, 0xFFFF, 0xBFFF, rnd.randrange(0xC000, 0xFFF0), rnd.randrange(0x4000, 0x7FF0)))
+
+
+def make_case(slot, rnd, variant, boundary=None, lay=L48):
     """boundary = index into BOUNDARY_T: everything the instruction touches is placed in contended
     memory and it starts right at the edge of the window in which contention is computed."""
     lead, name = slot
-    place_ = cplace if boundary is not None else place
+    if lay['m128']:
+        place_ = (cplace128odd if lay['odd'] else cplace) if boundary is not None else place128
+    else:
+        place_ = cplace if boundary is not None else place
     pc = place_(rnd)
     ins = [simdrv.r8(rnd) if b is None else b for b in lead]
     while len(ins) < 4:
@@ -59,11 +90,14 @@ def make_case(slot, rnd, variant, boundary=None):
     regs[I] = rnd.choice((0x3F, 0x40, 0x7F, 0x80, rnd.randrange(256)))
     regs[SP] = place_(rnd)
     regs[PC] = pc
-    regs[T] = frame_pos(rnd)
+    regs[T] = frame_pos(rnd, lay['first'], lay['t1'], lay['line'], lay['frame'])
+    if lay['m128']:
+        regs[A] = rnd.choice((0x40, 0x7F, 0x3F, 0x80, 0xC0, 0xFF, 0xBF, rnd.randrange(256)))
+        regs[I] = rnd.choice((0x3F, 0x40, 0x7F, 0x80, 0xBF, 0xC0, 0xFF, rnd.randrange(256)))
     if boundary is not None:
-        regs[A] = rnd.choice((0x40, 0x7F))
-        regs[I] = rnd.choice((0x40, 0x7F))
-        regs[T] = BOUNDARY_T[boundary] + FRAME48 * rnd.randrange(2)
+        regs[A] = rnd.choice((0x40, 0x7F, 0xC0, 0xFF) if lay['odd'] else (0x40, 0x7F))
+        regs[I] = rnd.choice((0x40, 0x7F, 0xC0, 0xFF) if lay['odd'] else (0x40, 0x7F))
+        regs[T] = boundary_t(lay)[boundary] + lay['frame'] * rnd.randrange(2)
         if ins[1:] and lead[-1] is not None:
             for k in range(len(lead), 4):
                 ins[k] = rnd.choice((0x40, 0x50, 0x7F)) if k == len(lead) + 1 else rnd.choice((0x01, 0x02, 0x7E))
@@ -72,13 +106,14 @@ def make_case(slot, rnd, variant, boundary=None):
     regs[HALT] = 1 if (lead[0] == 0x76 and rnd.random() < 0.5) else 0
     regs[MEMPTR] = rnd.randrange(65536)
     if len(lead) > 1 and lead[0] == 0xED and lead[1] >= 0xA0 and rnd.random() < 0.6:
-        bc = rnd.choice((0, 1, 2, 0x100, 0x101, 0x4001, 0x4100, 0x7F00, 0x0140))
+        bc = rnd.choice((0, 1, 2, 0x100, 0x101, 0x4001, 0x4100, 0x7F00, 0x0140, 0xC001, 0xC100, 0xFFFE, 0x01C0))
         regs[B], regs[C] = bc >> 8, bc & 255
     if lead[0] == 0x10 and rnd.random() < 0.5:
         regs[B] = rnd.choice((0, 1, 2))
     ov = [[(pc + i) % 65536, b] for i, b in enumerate(ins)]
     inv = rnd.choice((-1, simdrv.r8(rnd)))
-    return {'key': '%s/%d' % (name, variant), 'r': regs, 'ov': ov, 'inv': inv, 'frame': FRAME48, 'ia': 32, 'm128': 0, 'odd': 0}
+    return {'key': '%s/%d' % (name, variant), 'r': regs, 'ov': ov, 'inv': inv, 'frame': lay['frame'], 'ia': lay['ia'],
+            'm128': lay['m128'], 'odd': lay['odd']}
 
 
 def gen_and_run(args):
@@ -101,15 +136,64 @@ def gen_and_run(args):
     return cases
 
 
-def delay_table(impl_name, frame, first, contended_pc):
-    """Observe the wait-state table through the implementation: run a NOP at a contended PC at every t."""
-    im = [x for x in simdrv.impls() if x.name == impl_name][0]
+def gen_and_run128(args):
+    """128K machine (frame 70908, first contended T 14361, 228 T per line) with an odd (contended) or even bank
+    paged at 0xC000; paging is locked so that the memory map is constant during the step."""
+    seed, idxs, variants, nlay = args
+    rnd = random.Random(seed)
+    sl = simdrv.slots()
+    order = {'py': 0, 'pycm': 1, 'ccm': 2}
+    cases = []
+    for li, lay in enumerate(LAYOUTS128[:nlay]):
+        ims = [im for im in simdrv.impls128(lay['page'], lay['rom']) if im.name in order]
+        ims.sort(key=lambda im: order[im.name])
+        for i in idxs:
+            # odd layouts get the larger share: that is where the 128K-specific rule lives
+            nv = variants if lay['odd'] else max(1, variants // 3)
+            for v in range(nv):
+                c = make_case(sl[i], rnd, 2000 + 100 * li + v, lay=lay)
+                c['obs'] = [im.run_case(c) for im in ims]
+                cases.append(c)
+            if li < 2:
+                for bi in (range(8) if lay['odd'] else (1, 5)):
+                    c = make_case(sl[i], rnd, 3000 + 100 * li + bi, boundary=bi, lay=lay)
+                    c['obs'] = [im.run_case(c) for im in ims]
+                    cases.append(c)
+    return cases
+
+
+def delay_tables():
+    """Pattern D table: the wait-state tables of the Python module and the delays observed on the C module (a NOP at a
+    contended PC at every frame position)."""
+    cbuild.preload()
+    from skoolkit import cmiosimulator
+    out = {'py48': list(cmiosimulator.DELAYS_48K), 'py128': list(cmiosimulator.DELAYS_128K)}
+    out['c48'] = delay_table('ccm', 69888, 0x4000)
+    out['pycm48'] = delay_table('pycm', 69888, 0x4000)
+    for name, pc in (('c128', 0x4000), ('c128odd', 0xC000)):
+        im = [x for x in simdrv.impls128(1, 0) if x.name == 'ccm'][0]
+        out[name] = _observe(im, 70908, pc)
+    im = [x for x in simdrv.impls128(4, 1) if x.name == 'ccm'][0]
+    out['c128even'] = _observe(im, 70908, 0xC000)
+    im = [x for x in simdrv.impls128(1, 0) if x.name == 'pycm'][0]
+    out['pycm128odd'] = _observe(im, 70908, 0xC000)
+    return out
+
+
+def _observe(im, frame, pc):
     regs, mem, run = im.sim.registers, im.mem, im.sim.run
-    mem[contended_pc] = 0
+    old = mem[pc]
+    mem[pc] = 0
     out = []
     for t in range(frame):
         regs[T] = t
-        run(contended_pc)
+        run(pc)
         out.append(int(regs[T]) - t - 4)
-    mem[contended_pc] = simdrv.BASE[contended_pc]
+    mem[pc] = old
     return out
+
+
+def delay_table(impl_name, frame, contended_pc):
+    """Observe the wait-state table through the implementation: run a NOP at a contended PC at every t."""
+    im = [x for x in simdrv.impls() if x.name == impl_name][0]
+    return _observe(im, frame, contended_pc)
